@@ -64,6 +64,8 @@ def relations(p, x_out, y_out, e_out, y_in, S, tag, finite_required=True, x_prev
     g = p.g(x_out)
     for i in range(p.m):
         s = S[0] if len(S) == 1 else S[i]
+        if not all(math.isfinite(t) and abs(t) < 1e150 for t in (g[i], e_out[i], y_out[i], y_in[i])):
+            continue        # overflowing (diverged) run: the relations are not meaningful in binary64
         z = g[i] + y_in[i] / s
         e_ref = g[i] - min(max(z, p.Dlb[i]), p.Dub[i])
         tol = 1e-9 * (1 + abs(g[i]) + abs(y_in[i] / s))
@@ -94,6 +96,12 @@ def oracle(scenario, rq, o):
             bad.append(("C03:errz-touched-without-overwrite:" + tag, "err_z written although outputs must stay untouched"))
         return bad
     user_finite = scenario not in ("nan", "Lnan")
+    if o["records"]:
+        # a diverging run (iterates / gradients overflowing, e.g. L_max capped far below the curvature) cannot return a finite x̂:
+        # the finite-x clause is checked when the last iterate and its gradient are finite
+        fin = o["records"][-1]
+        if not all(math.isfinite(t) for t in sl.V(fin, "x") + sl.V(fin, "grad")):
+            user_finite = False
     x_prev = sl.V(o["records"][-1], "x") if o["records"] else None
     bad += relations(p, x_out, y_out, e_out, rq.y0, rq.S0, tag, finite_required=user_finite, x_prev=x_prev)
     return bad
@@ -155,7 +163,10 @@ def run(ctx):
         ctx.broke("correspondence", "SolverKernels.v vs drv_solve records (%s)" % ",".join(kinds),
                   json.dumps({"first_disagreeing_case": terms[failing[0]], "kind": kind, "request": rq.describe(), "n_disagreements": len(failing)}))
     # whole-loop tie for PANOC: verified model (Panoc.v) vs the real solver on whole runs
-    from vf.props import PANOC
-    PANOC.attach(ctx)
+    from vf.props import PANOC, PANTR
+    def on_run(cs, o):
+        return oracle("nan" if cs.rq.nan_from_eval >= 0 else "plain", cs.rq, o)
+    PANOC.attach(ctx, extra_oracle=on_run)
+    PANTR.attach(ctx, extra_oracle=on_run)
     from vf.props import ZEROFPR
-    ZEROFPR.attach(ctx)
+    ZEROFPR.attach(ctx, extra_oracle=on_run)
